@@ -1,7 +1,7 @@
 """C25 — line/column (probe c25; rendered diagnostic headers are checked by the pipeline part)."""
 from ._probe_check import run_probe_check, replay_text
 
-RULE = ("every string of length <= N over {a,\\n,\\r,\\t,é} x every byte offset (exhaustive; N=7 quick, 9 thorough), corpus files and random "
+RULE = ("every string of length <= N over {a,\\n,\\r,\\t,é} x every byte offset (exhaustive; N=7 quick, 8 thorough), corpus files and random "
         "multi-line texts x every offset; non-trivial = text with >= 1 newline, distinct = distinct line-length patterns")
 ASSUME = ["oracle: line = number of \\n bytes before the offset, column = offset - index after the last such \\n"]
 
@@ -12,7 +12,7 @@ MIRI = {"quick": ["--maxlen", "2", "--random", "6", "--files", "1"],
 
 
 def run(tier, seed):
-    return run_probe_check("C25", tier, seed, RULE, ASSUME, corpus=True, extra=["--maxlen", "9" if tier == "thorough" else "7"],
+    return run_probe_check("C25", tier, seed, RULE, ASSUME, corpus=True, extra=["--maxlen", "8" if tier == "thorough" else "7"],
                            min_evals=100000, miri=MIRI)
 
 
